@@ -61,11 +61,15 @@ type rpObs struct {
 const altReportSchema = "https://example.org/schemas/report.yaml"
 const altLexicalSchema = "https://example.org/schemas/lexical.yaml"
 
+// the concrete spelling of the abstract validation names a, b, ghost: text that looks like a YAML comment when the
+// quoting is ignored, so that two profiles may differ in nothing but the characters after " #"
+func rpName(v string) string { return "rule #" + v }
+
 func renderRpProfile(c rpCase) string {
 	doc := map[string]any{"profile": c.Profile.Name, "prefixes": map[string]any{"ex": exNS}}
 	vals := map[string]any{}
 	for _, v := range c.Profile.Defined {
-		vals[v] = map[string]any{"targetClass": "ex.T", "message": "validation " + v,
+		vals[rpName(v)] = map[string]any{"targetClass": "ex.T", "message": "validation " + v,
 			"propertyConstraints": map[string]any{"ex.has-" + v: map[string]any{"minCount": 1}}}
 	}
 	doc["validations"] = vals
@@ -82,7 +86,7 @@ func renderRpProfile(c rpCase) string {
 		}
 		arr := []any{}
 		for _, n := range names {
-			arr = append(arr, n)
+			arr = append(arr, rpName(n))
 		}
 		doc[l] = arr
 	}
@@ -150,6 +154,7 @@ func projectRp(rep string, err error, cfg config.ReportConfiguration) rpProj {
 			m, _ := r.(map[string]any)
 			sev, _ := m["resultSeverity"].(string)
 			name, _ := m["sourceShapeName"].(string)
+			name = strings.TrimPrefix(name, "rule #")
 			focus, _ := m["focusNode"].(string)
 			p.Results = append(p.Results, rpResult{strings.TrimPrefix(sev, "http://www.w3.org/ns/shacl#"), name, strings.TrimPrefix(focus, nodeNS)})
 		}
@@ -182,6 +187,13 @@ func projectRp(rep string, err error, cfg config.ReportConfiguration) rpProj {
 	return p
 }
 
+// literalReportConfig rebuilds a configuration field by field, the way a caller that does not start from
+// DefaultReportConfiguration() writes it (js/validator.go does)
+func literalReportConfig(d config.ReportConfiguration) config.ReportConfiguration {
+	return config.ReportConfiguration{IncludeReportCreationTime: d.IncludeReportCreationTime,
+		ReportSchemaIri: d.ReportSchemaIri, LexicalSchemaIri: d.LexicalSchemaIri}
+}
+
 func runReport(c rpCase) (o rpObs) {
 	o.ID = c.ID
 	prof := renderRpProfile(c)
@@ -207,7 +219,11 @@ func runReport(c rpCase) (o rpObs) {
 				o.Validate = rpProj{Err: fmt.Sprint("panic: ", r), Results: []rpResult{}}
 			}
 		}()
-		rep, err := pkg.ValidateWithConfiguration(prof, data, false, nil, clock, cfg)
+		vcfg := cfg
+		if c.Variant >= 2 {
+			vcfg = literalReportConfig(cfg) // a configuration built as a struct literal is the same configuration
+		}
+		rep, err := pkg.ValidateWithConfiguration(prof, data, false, nil, clock, vcfg)
 		o.Validate = projectRp(rep, err, cfg)
 	}()
 	func() {
